@@ -88,7 +88,7 @@ func gatesAuth(s *Summary, c *gateCase) {
 		accounts[a[0]] = a[1]
 	}
 	for _, hv := range authHeaders(c) {
-		for pos := 0; pos < 3; pos++ { // the gate as global, group or route middleware
+		for pos := 0; pos < 4; pos++ { // the gate as global, group or route middleware; 3: behind a handler that has already written
 			ran := []string{}
 			r := rux.New()
 			auth := handlers.HTTPBasicAuth(accounts)
@@ -100,9 +100,15 @@ func gatesAuth(s *Summary, c *gateCase) {
 			case 1:
 				r.Use(mark("before"))
 				r.Group("/", func() { r.GET("/p", mark("main"), mark("after")) }, auth)
-			default:
+			case 2:
 				r.Use(mark("before"))
 				r.GET("/p", mark("main"), auth, mark("after"))
+			default:
+				// a generic http.Handler wrapped as middleware has started the response before the gate is reached: the gate can
+				// no longer change the status, but it still decides whether anything downstream runs
+				r.Use(mark("before"), rux.WrapHTTPHandler(http.HandlerFunc(func(w http.ResponseWriter, _ *http.Request) { _, _ = w.Write([]byte("banner;")) })),
+					auth, mark("after"))
+				r.GET("/p", mark("main"))
 			}
 			req := &http.Request{Method: "GET", URL: &url.URL{Path: "/p"}, Header: http.Header{}, Proto: "HTTP/1.1"}
 			if hv != "<none>" {
@@ -114,10 +120,13 @@ func gatesAuth(s *Summary, c *gateCase) {
 			downstream := len(ran) == 3
 			wantCode := map[string]int{"pass": 200, "401": 401, "403": 403}[c.Expect]
 			challenge := w.Header().Get("WWW-Authenticate") != ""
+			if pos == 3 { // status and headers are on the wire already
+				wantCode, challenge = w.Code, c.Expect == "401"
+			}
 			if w.Code != wantCode || downstream != (c.Expect == "pass") || (c.Expect == "401") != challenge || (c.Expect != "pass" && !reflect.DeepEqual(ran, []string{"before"})) {
 				s.mismatch(map[string]any{"kind": "gates", "aspect": "auth", "what": fmt.Sprintf(
 					"HTTPBasicAuth(accounts %v) as %s middleware, Authorization %q: status %d, handlers run %v, challenge=%v; the statement gives %s",
-					accounts, []string{"global", "group", "route"}[pos], hv, w.Code, ran, challenge, c.Expect)}, c)
+					accounts, []string{"global", "group", "route", "global (after a handler that has written)"}[pos], hv, w.Code, ran, challenge, c.Expect)}, c)
 				return
 			}
 		}
